@@ -106,9 +106,10 @@ def finish(ctx: Ctx, rule="R-C03-FINISH") -> None:
     rej = [n for n in g.calls() if C.broker_op(ctx, n, ("reject",))]
     gat = [n for n in g.calls() if (n.callee or "").endswith("gather")]
     canc = [n for n in g.calls() if n.callee == "self.consume_task.cancel"]
-    ok = len(gets) == 1 and len(rej) == 1 and len(gat) == 1 and gat[0].id in await_map(g) and unparse(rej[0].ast.args[0]) == "key" and unparse(gat[0].ast.args[0]) == "*rejects"
-    ok = ok and any(isinstance(n, ast.Assign) and isinstance(n.targets[0], ast.Tuple) and dotted(n.targets[0].elts[0]) == "key" and n.value is gets[0].ast for n in ast.walk(f.node))
-    ok = ok and any(isinstance(c, ast.Call) and dotted(c.func) == "rejects.append" and c.args[0] is rej[0].ast for c in ast.walk(f.node))
+    ok = len(gets) == 1 and len(rej) == 1 and len(gat) == 1 and gat[0].id in await_map(g) and isinstance(rej[0].ast.args[0], ast.Name)
+    ok = ok and any(isinstance(n, ast.Assign) and isinstance(n.targets[0], ast.Tuple) and dotted(n.targets[0].elts[0]) == rej[0].ast.args[0].id and n.value is gets[0].ast for n in ast.walk(f.node))
+    coll = [c for c in ast.walk(f.node) if isinstance(c, ast.Call) and isinstance(c.func, ast.Attribute) and c.func.attr == "append" and c.args and rej and c.args[0] is rej[0].ast]
+    ok = ok and len(coll) == 1 and isinstance(gat[0].ast.args[0], ast.Starred) and dotted(gat[0].ast.args[0].value) == dotted(coll[0].func.value)
     ctx.check(ok, rule, f, "redis finish: every prefetched message is rejected, rejects awaited", "get_nowait -> reject(key) per item; await gather(*rejects)",
               "redis finish() does not reject every prefetched message of its own local queue and await the rejects: prefetched messages stay marked in flight", instance="redis finish")
     started = {"*t": lambda text, node: False if isinstance(node, ast.Compare) and isinstance(node.ops[0], ast.Is) and dotted(node.left) == "self.consume_task" else None}
@@ -125,10 +126,17 @@ def finish(ctx: Ctx, rule="R-C03-FINISH") -> None:
     rej = [n for n in g.calls() if (n.callee or "").endswith("basic_reject")]
     gat = [n for n in g.calls() if (n.callee or "").endswith("gather")]
     cancel = [n for n in g.calls() if (n.callee or "").endswith("basic_cancel")]
-    ok = len(gets) == 1 and len(rej) == 1 and len(gat) == 1 and gat[0].id in await_map(g) and dotted(rej[0].ast.args[0]) == "tag" \
+    ok = len(gets) == 1 and len(rej) == 1 and len(gat) == 1 and gat[0].id in await_map(g) and isinstance(rej[0].ast.args[0], ast.Name) \
         and not any(k.arg == "requeue" and C.is_const(k.value, False) for k in rej[0].ast.keywords)
-    tagd = C.local_defs(f, "tag")
-    ok = ok and len(tagd) == 1 and unparse(tagd[0]).startswith("self.broker._id_to_delivery_tag.pop(key.id_")
+    tagd = C.local_defs(f, rej[0].ast.args[0].id) if ok else []
+    keyv = None
+    for n in ast.walk(f.node):
+        if isinstance(n, ast.Assign) and isinstance(n.targets[0], ast.Tuple) and gets and n.value is gets[0].ast and isinstance(n.targets[0].elts[0], ast.Name):
+            keyv = n.targets[0].elts[0].id
+    ok = ok and len(tagd) == 1 and keyv is not None and unparse(tagd[0]).startswith(f"self.broker._id_to_delivery_tag.pop({keyv}.id_")
+    # the rejects collected are the ones awaited
+    coll = [c for c in ast.walk(f.node) if isinstance(c, ast.Call) and isinstance(c.func, ast.Attribute) and c.func.attr == "append" and c.args and rej and c.args[0] is rej[0].ast]
+    ok = ok and len(coll) == 1 and gat and isinstance(gat[0].ast.args[0], ast.Starred) and dotted(gat[0].ast.args[0].value) == dotted(coll[0].func.value)
     ctx.check(ok, rule, f, "rabbitmq finish: every prefetched message is rejected (requeue) by its own delivery tag, rejects awaited", "basic_reject(tag of key.id_)",
               "rabbitmq finish() does not reject every locally queued message by its delivery tag and await the rejects", instance="rabbitmq finish")
     ctx.check(len(cancel) == 1 and cancel[0].id in await_map(g) and all(flow.must_pass(g, g.entry.id, [x.id], [cancel[0].id], flow.NORMAL_KINDS) for x in gets), rule, f,
